@@ -5,9 +5,9 @@ package c07
 
 import (
 	"bytes"
-	"strconv"
 	"fmt"
 	"sort"
+	"strconv"
 	"strings"
 	"testing"
 	"time"
